@@ -36,7 +36,8 @@ func TestProbe(t *testing.T) {
 			ci := host.Classify(r)
 			fmt.Printf("[%v] step %d: %s root=%s value=%s logs=%v uuids=%v\n", e, i, ci.Class, ci.Root, host.ExportJSON(r.Value), r.Logs, r.UUIDs)
 			for _, ev := range r.Events {
-				fmt.Printf("    event %s %v\n", ev.EventType.ID(), ev)
+				fmt.Printf("    event %s %v %s\n", ev.EventType.ID(), ev, probeEventTypes(ev))
+				probeEvent(ev)
 			}
 			if r.Err != nil {
 				es := r.Err.Error()
